@@ -85,7 +85,7 @@ def expect(ck, cond, rule, fn, key, what):
         ck.finding(rule, fn, key, what)
 
 
-def check_index(ck, m, a, info, idx, id_lin, method):
+def check_index(ck, m, a, info, idx, id_lin, method, pid='C17'):
     """the slot touched is frag_id % max_frag_id"""
     if idx is None:
         return
@@ -93,7 +93,7 @@ def check_index(ck, m, a, info, idx, id_lin, method):
     if len(idx.terms) == 1 and idx.const == 0:
         d = ATOMS.info(idx.terms[0][0]).defn
         ok = bool(d) and d[0] == 'rem' and d[2] == info['max'] and d[1] == id_lin
-    expect(ck, ok, 'C17.R8', MEM + method, 'index-function', f"{method}: the slot index is not frag_id % max_frag_id")
+    expect(ck, ok, f'{pid}.R8', MEM + method, 'index-function', f"{method}: the slot index is not frag_id % max_frag_id")
 
 
 def run(ck, pid='C17'):
@@ -117,7 +117,7 @@ def run(ck, pid='C17'):
         for w, rv in a.rets:
             n += 1
             after, idx = m.slot_after(a, info, w)
-            check_index(ck, m, a, info, idx, a.args[1][1], 'take_frag')
+            check_index(ck, m, a, info, idx, a.args[1][1], 'take_frag', pid)
             alts = ret_alts(rv) or []
             kinds = [v for v, _ in alts]
             if slot == 'some-eq':
@@ -140,7 +140,7 @@ def run(ck, pid='C17'):
         for w, rv in a.rets:
             n += 1
             after, idx = m.slot_after(a, info, w)
-            check_index(ck, m, a, info, idx, arg[1][0][1][m.i_fid][1], 'save_frag')
+            check_index(ck, m, a, info, idx, arg[1][0][1][m.i_fid][1], 'save_frag', pid)
             alts = ret_alts(rv) or []
             kinds = [v for v, _ in alts]
             if slot == 'none':
@@ -164,7 +164,7 @@ def run(ck, pid='C17'):
         for w, rv in a.rets:
             n += 1
             after, idx = m.slot_after(a, info, w)
-            check_index(ck, m, a, info, idx, ctx[1][m.i_fid][1], 'new_frag')
+            check_index(ck, m, a, info, idx, ctx[1][m.i_fid][1], 'new_frag', pid)
             alts = ret_alts(rv) or []
             kinds = [v for v, _ in alts]
             len1 = a.I.seq_len(w, info['storages_root'])
